@@ -788,3 +788,32 @@ def m_pthread_key(eng, st, fr, ins, a):
 @model("_ZSt20__throw_system_errori")
 def m_sys_err(eng, st, fr, ins, a):
     return _abort("throw")(eng, st, fr, ins, a)
+
+
+# ----------------------------------------------------------------------------- cut points (DESIGN.md 2.2)
+
+def cut_cells(eng, st, addr, n, ty, name):
+    """replace n scalars at addr by fresh reals; the defining equalities are kept aside (st.user['defs'])"""
+    defs = st.user.setdefault("defs", [])
+    out = []
+    for i in range(n):
+        a = addr + i * ty.size
+        v = eng.load(st, a, ty)
+        if isinstance(v, SV):
+            f = eng.fresh(name + "_%d" % i, z3.RealSort())
+            defs.append(f == v.e)
+            eng.store(st, a, ty, SV(f))
+            out.append(f)
+        else:
+            out.append(v)
+    return out
+
+
+def cut_dynamic_matrix(eng, st, mat_addr, name, ty=ir.DOUBLE):
+    """Eigen::Matrix<Scalar, Dynamic, Dynamic>: {Scalar* data; Index rows; Index cols}"""
+    data = eng.load(st, mat_addr, ir.PtrT(ty))
+    rows = eng.load(st, mat_addr + 8, ir.I64)
+    cols = eng.load(st, mat_addr + 16, ir.I64)
+    if not all(isinstance(x, int) for x in (data, rows, cols)):
+        raise Inconclusive("cut of a matrix with symbolic shape")
+    return cut_cells(eng, st, data, rows * cols, ty, name), rows, cols
